@@ -209,6 +209,7 @@ class Registry:
                                                                                             name + "!arr")
             n = z3.Int(name + "!len") if not fresh else run.fresh("Int", name + "!len")
             run.assume(n >= 0)
+            run.__dict__.setdefault("size_terms", []).append(n)
             if elem == "OptStr":
                 i = z3.Int("i!dom")
                 run.ctx.fact(z3.ForAll([i], arr[i] >= 0), key=("dom", arr.sexpr()))
